@@ -176,6 +176,9 @@ func resultFollows(c *Check, a *Anchors, fb *FuncBody, label, rule string, extra
 		if !direct && !st.Has("called:"+label) {
 			continue
 		}
+		if !direct && st.Has("nil:"+label) && res != nil && !isNilLit(info, res) {
+			continue // the call succeeded; this return reports something that happened later
+		}
 		n++
 		key := fmt.Sprintf("%s-result-return#%d@%s", label, i+1, fnDisplay(fb))
 		ok, how := false, ""
